@@ -1,12 +1,18 @@
 """C18 — KVS: KM laws + journal theorems + differential run of kvs.KVS against extracted KM + crash images."""
 import p_c17
 TRUSTED = ['KM (Model/KvsModel.v) as the statement of the store; WalDisk.recover_log validated per image']
-ASSUMPTIONS = ['sequential caller; concurrent multi-puts are not exercised by this check']
+ASSUMPTIONS = ['concurrent histories are sampled (Go schedules are not enumerated); values are compared on their first 8 bytes there']
 
 
 def run(ctx, ps, gen_bad):
     runs = [(150, 250), (150, 200), (120, 150)] if ctx.quick else [(1500, 4000)] * 6
-    return p_c17.run_kind(ctx, 'kvs', runs)
+    fails, cov = p_c17.run_kind(ctx, 'kvs', runs)
+    # concurrent multi-puts on overlapping key sets and gets: a sequential order over the model must explain each history
+    f2, c2 = p_c17.conc(ctx, 16 if ctx.quick else 400, 4, 12, mode='kvsconc')
+    fails += f2
+    cov.update(c2)
+    cov['evaluations'] += c2['concurrent_histories']
+    return fails, cov
 
 
 def replay(ctx, path):
